@@ -195,6 +195,16 @@ func (n *N) JQ() (string, error) {
 			return "", err
 		}
 		return "(" + k + " | .[" + n.Args[0] + "])", nil
+	case "sub":
+		// (sub K E): `E - K` with K an integer literal
+		if err := argn(1); err != nil || !isInt(n.Args[0]) {
+			return "", fmt.Errorf("sub: bad")
+		}
+		k, err := kid()
+		if err != nil {
+			return "", err
+		}
+		return "(" + k + " - " + jqInt(n.Args[0]) + ")", nil
 	case "sl":
 		if err := argn(2); err != nil {
 			return "", err
